@@ -160,7 +160,10 @@ libast_dprintf(const char *format, ...)
     int n;
 
     ASSERT_RVAL(!SPIF_PTR_ISNULL(format), (int) -1);
-    REQUIRE_RVAL(!silent, 0);
+    if (silent) {
+        /* Not REQUIRE_RVAL():  its own debug message would come straight back here. */
+        return 0;
+    }
     REQUIRE_RVAL(libast_program_name != NULL, 0);
     va_start(args, format);
     n = vfprintf(LIBAST_DEBUG_FD, format, args);
@@ -189,7 +192,9 @@ libast_print_error(const char *fmt, ...)
     va_list arg_ptr;
 
     ASSERT(!SPIF_PTR_ISNULL(fmt));
-    REQUIRE(!silent);
+    if (silent) {
+        return;
+    }
     REQUIRE(libast_program_name != NULL);
     va_start(arg_ptr, fmt);
     fprintf(stderr, "%s:  Error:  ", libast_program_name);
@@ -217,7 +222,9 @@ libast_print_warning(const char *fmt, ...)
     va_list arg_ptr;
 
     ASSERT(!SPIF_PTR_ISNULL(fmt));
-    REQUIRE(!silent);
+    if (silent) {
+        return;
+    }
     REQUIRE(libast_program_name != NULL);
     va_start(arg_ptr, fmt);
     fprintf(stderr, "%s:  Warning:  ", libast_program_name);
